@@ -286,6 +286,10 @@ def accessor_agreement(ct, rep, rule="accessor-agreement"):
             npaths = 0
             for pe in path_returns(setter.node):
                 if pe.kind == "raise":
+                    # the setter itself refuses nothing: whatever block is assigned is replaced or added (refusals belong to the
+                    # write-context guard and to add_block / replace_block)
+                    okk = False
+                    why = f"a path of the `{g}` setter raises on its own (`{norm(head(pe.node))[:60]}`): an assignment the property promises to carry out (replace when present, add when absent) is refused"
                     continue
                 calls = [x for e in pe.effects + ([ast.Expr(value=pe.value)] if pe.value is not None else []) for x in ast.walk(e)
                          if isinstance(x, ast.Call) and norm(x.func) in ("self.replace_block", "self.add_block")]
@@ -737,6 +741,10 @@ def run(prog, rep):
     from .c08 import handle_discipline
     rep.attempt(handle_discipline, ct, rep)
     rep.attempt(removal_selects_type, ct, rep)
+    # a live entry can be looked up only if its bytes are where the table says: the removal moves the WHOLE tail up on every path,
+    # and an add refuses a live entry behind the slot it takes (C03/C09's rules, necessary here)
+    rep.attempt(lambda: M.tail_move(ct, rep))
+    rep.attempt(lambda: M.repoint_later(ct, rep))
     # lookup by type / slot / the list of all blocks decode a live entry through _get_block_class: every block type must reach
     # the class that implements it (a stub raises NotImplementedError for a block that presence and count report)
     from .c04 import dispatch_exhaustive
